@@ -23,50 +23,117 @@ Definition valid_mnemonic (m : string) : bool :=
 Definition valid_scale (z : Z) : bool := orb (Z.eqb z 1) (orb (Z.eqb z 2) (orb (Z.eqb z 4) (Z.eqb z 8))).
 Definition opt_reg (o : option string) : bool := match o with Some n => valid_reg n | None => true end.
 
+(* a number as written: [-]digits+ (leading zeros allowed: the text is kept, not converted) or [-]0x hexdigits+ *)
+Definition valid_numtxt (t : string) : bool :=
+  let u := if hd_eqb "-" (L t) then tl (L t) else L t in
+  if hex_prefix u then (match tl (tl u) with [] => false | h => forallb is_hex h end)
+  else (match u with [] => false | _ => forallb is_digit u end).
+(* the decimal offset after a relocation: [-]digits+ *)
+Definition valid_offtxt (t : string) : bool :=
+  match (if hd_eqb "-" (L t) then tl (L t) else L t) with [] => false | u => forallb is_digit u end.
+Definition valid_reloc (a : string) : bool :=
+  match L a with [] => false | l => forallb is_alpha l end.
+Definition valid_sdisp (d : sdisp) : bool :=
+  match d with
+  | SNone => true
+  | SNum t => valid_numtxt t
+  | SId n rel off =>
+      andb (valid_ident n)
+           (match rel, off with
+            | None, None => true
+            | None, Some _ => false                   (* "+8" without a relocation is part of the name *)
+            | Some a, None => valid_reloc a
+            | Some a, Some t => andb (valid_reloc a) (valid_offtxt t)
+            end)
+  end.
+
+Definition valid_numlabel (n : string) : bool :=
+  match L n with [] => false | l => forallb is_digit l end.
+Definition valid_disp (d : disp) : bool :=
+  match d with
+  | DId n => valid_ident n
+  | DIdR n rel off => valid_sdisp (SId n (Some rel) off)
+  | _ => true
+  end.
+(* disp(base,index,scale) with at least one register *)
+Definition valid_paren_mem (d : disp) (b i : option string) (sc : Z) : bool :=
+  andb (opt_reg b) (andb (opt_reg i) (andb (valid_scale sc) (andb (valid_disp d)
+  (andb (match i with None => Z.eqb sc 1 | Some _ => true end)      (* no index: scale is 1 *)
+        (match b, i with None, None => false | _, _ => true end))))).
+
+(* the operands AS WRITTEN (what render can produce) *)
 Definition valid_operand (o : operand) : bool :=
   match o with
   | OReg n => valid_reg n
   | OImm _ => true                                   (* any integer, any size *)
   | OId n => valid_ident n
   | OMem d b i sc =>
-      andb (opt_reg b) (andb (opt_reg i) (andb (valid_scale sc)
-      (andb (match d with DId n => valid_ident n | _ => true end)
-      (andb (match i with None => Z.eqb sc 1 | Some _ => true end)      (* no index: scale is 1 *)
-            (match b, i with
-             | None, None => match d with DInt z => Z.leb 0 z | _ => false end   (* absolute address *)
-             | _, _ => true
-             end)))))
+      match d, b, i with
+      | DInt z, None, None => andb (Z.leb 0 z) (Z.eqb sc 1)           (* absolute address *)
+      | _, _, _ => valid_paren_mem d b i sc
+      end
+  | OSeg sg d b i sc =>
+      andb (valid_reg sg) (andb (opt_reg b) (andb (opt_reg i) (andb (valid_scale sc)
+      (andb (valid_sdisp d)
+      (andb (match i with None => Z.eqb sc 1 | Some _ => true end)
+            (match b, i, d with None, None, SNone => false | _, _, _ => true end))))))   (* "%fs:" alone cannot be written *)
+  | OStar (StReg n) => valid_reg n
+  | OStar (StDisp d) => andb (valid_sdisp d) (match d with SNone => false | _ => true end)
+  | ORegK n k _ => andb (valid_reg n) (valid_reg k)
+  | OMemK d b i sc k => andb (valid_paren_mem d b i sc) (valid_reg k)
+  | OIdR n rel off => valid_sdisp (SId n (Some rel) off)
+  | ONumLbl d x => andb (valid_numlabel d) (one_of "bBfF" x)
   end.
 
-Definition valid_instr (a : instr) : bool :=
-  andb (valid_mnemonic (fst a)) (andb (forallb valid_operand (snd a)) (Nat.leb (length (snd a)) 4)).
+(* nothing of the written operand is dropped by the code: code_view o = o *)
+Definition lossless (o : operand) : bool :=
+  match o with
+  | ORegK _ _ _ | OMemK _ _ _ _ _ | OIdR _ _ _ | ONumLbl _ _ => false
+  | OMem (DIdR _ _ _) _ _ _ => false
+  | _ => true
+  end.
+Definition not_numlbl (o : operand) : bool := match o with ONumLbl _ _ => false | _ => true end.
 
+(* instructions as written: a numeric label  1b / 2f  can only be the first operand *)
+Definition valid_instr_w (a : instr) : bool :=
+  andb (valid_mnemonic (fst a)) (andb (forallb valid_operand (snd a))
+  (andb (forallb not_numlbl (tl (snd a))) (Nat.leb (length (snd a)) 4))).
+
+(* ... of which every written part is kept by the code *)
+Definition valid_instr (a : instr) : bool :=
+  andb (valid_instr_w a) (forallb lossless (snd a)).
+
+Definition valid_klay (k : klay) : bool :=
+  andb (blanks (w_st k)) (andb (blanks (wk1 k)) (andb (blanks (wk2 k)) (andb (blanks (wk3 k)) (andb (blanks (wk4 k))
+  (andb (blanks (wk5 k)) (andb (blanks (wk6 k)) (blanks (wk7 k)))))))).
 Definition valid_oplay (lo : oplay) : bool :=
   andb (blanks (w_d lo)) (andb (blanks (w_lp lo)) (andb (blanks (w_b lo)) (andb (blanks (w_c1 lo))
-  (andb (blanks (w_i lo)) (andb (blanks (w_c2 lo)) (blanks (w_s lo))))))).
+  (andb (blanks (w_i lo)) (andb (blanks (w_c2 lo)) (andb (blanks (w_s lo))
+  (andb (blanks (w_sg1 lo)) (andb (blanks (w_sg2 lo)) (andb (blanks (w_at lo)) (andb (blanks (w_pl1 lo)) (andb (blanks (w_pl2 lo))
+  (valid_klay (lo_k lo))))))))))))).
 Definition valid_oplay3 (x : oplay * string * string) : bool :=
   let '(lo, wb, wa) := x in andb (valid_oplay lo) (andb (blanks wb) (blanks wa)).
 Definition valid_comment (c : option (bool * string)) : bool :=
   match c with None => true | Some (_, t) => allc is_textc t end.   (* printable ASCII and blanks *)
 
+(* a data16 / data32 prefix is followed by at least one blank *)
+Definition valid_prefix (p : bool * string) : bool := andb (blanks (snd p)) (negb (String.eqb (snd p) "")).
 (* every layout whose blank strings are blanks; the only non-emptiness demanded is between the
    mnemonic and the first operand *)
 Definition valid_layout (lay : layout) : bool :=
   andb (blanks (lead lay)) (andb (blanks (gap lay)) (andb (negb (String.eqb (gap lay) ""))
-  (andb (forallb valid_oplay3 (lops lay)) (andb (blanks (trail lay)) (valid_comment (comment lay)))))).
+  (andb (forallb valid_oplay3 (lops lay)) (andb (blanks (trail lay)) (andb (valid_comment (comment lay))
+  (forallb valid_prefix (prefixes lay))))))).
 
 (* labels and directives *)
 Definition valid_label (n : string) : bool :=
   match L n with c :: r => andb (is_lblfirst c) (forallb is_lblrest r) | [] => false end.
-Definition valid_numlabel (n : string) : bool :=
-  match L n with [] => false | l => forallb is_digit l end.
 Definition valid_dirname (n : string) : bool :=
   match L n with [] => false | l => forallb is_dirname l end.
-(* what follows the directive name: nothing, or a blank followed by printable text without quotes
+(* what follows the directive name: nothing, or a blank followed by printable text (quoted parameters included)
    whose first non-blank character is not ":" (".text :" is a label) *)
 Definition valid_dirrest (r : string) : bool :=
   match L r with
   | [] => true
-  | c :: _ => andb (is_ws c) (andb (forallb is_textc (L r)) (andb (negb (existsb is_quote (L r)))
-                   (negb (hd_eqb ":" (skip (L r))))))
+  | c :: _ => andb (is_ws c) (andb (forallb is_textc (L r)) (negb (hd_eqb ":" (skip (L r)))))
   end.
